@@ -516,7 +516,7 @@ func checkC14(c *Ctx) {
 	for i, p := range corpus {
 		cases = append(cases, cs{c.CaseID("corpus", i), p})
 	}
-	for i := 0; i < c.Pick(600, 6000); i++ {
+	for i := 0; i < c.Pick(600, 40000); i++ {
 		r := c.CaseRng("compose", i)
 		mx := 6
 		if i%5 == 0 {
@@ -740,7 +740,7 @@ func c14Renumber(c *Ctx) {
 		func(i accessory.Info) *accessory.Accessory { return accessory.NewThermostat(i, 20, 10, 30, 1).Accessory },
 		func(i accessory.Info) *accessory.Accessory { return accessory.NewTelevision(i).Accessory },
 	}
-	for i := 0; i < c.Pick(60, 600); i++ {
+	for i := 0; i < c.Pick(60, 3000); i++ {
 		id := c.CaseID("renumber", i)
 		if c.Skip(id) {
 			continue
@@ -819,7 +819,7 @@ func c14ConcurrentJSON(c *Ctx) {
 	// one processor: goroutines that run while the stalled one is parked share its processor-local caches (sync.Pool
 	// private slots etc.), which makes interference between requests reproducible instead of a matter of luck
 	defer runtime.GOMAXPROCS(runtime.GOMAXPROCS(1))
-	for i := 0; i < c.Pick(8, 40); i++ {
+	for i := 0; i < c.Pick(8, 120); i++ {
 		id := c.CaseID("concurrent-json", i)
 		if c.Skip(id) {
 			continue
